@@ -472,8 +472,8 @@ func dpCfgRec(st dpStep, cfg *types.SetupConfig, eniName, slave string) vt.M {
 		"host4": dpNetIP(cfg.HostIPSet.IPv4), "host6": dpNetIP(cfg.HostIPSet.IPv6), "aset": st.aset}
 }
 
-func dpLinkRec(nsID int, name string, idx int, kind string, peer int, from string) vt.M {
-	return vt.M{"ns": nsID, "name": name, "idx": idx, "kind": kind, "peer": peer, "from": from}
+func dpLinkRec(nsID int, l netlink.Link, name string, kind string, peer int) vt.M {
+	return vt.M{"ns": nsID, "name": name, "idx": l.Attrs().Index, "kind": kind, "peer": peer, "mac": l.Attrs().HardwareAddr.String()}
 }
 
 // ------------------------------------------------------------------------------------------------ level 1
@@ -529,12 +529,13 @@ func dpInitialDump(nPods int) []vt.M {
 			rules = append(rules, dpRule(&netlink.Rule{Priority: 0, Table: unix.RT_TABLE_LOCAL}, f), dpRule(&netlink.Rule{Priority: 32766, Table: unix.RT_TABLE_MAIN}, f))
 		}
 		rules = append(rules, dpRule(&netlink.Rule{Priority: 32767, Table: unix.RT_TABLE_DEFAULT}, 4))
-		return vt.M{"ns": nsID, "links": []vt.M{{"name": "lo", "idx": 1, "kind": "device", "peer": 0}}, "addrs": []vt.M{}, "rules": rules, "routes": []vt.M{}, "neighs": []vt.M{}}
+		return vt.M{"ns": nsID, "links": []vt.M{{"name": "lo", "idx": 1, "kind": "device", "peer": 0, "mac": ""}}, "addrs": []vt.M{}, "rules": rules, "routes": []vt.M{}, "neighs": []vt.M{}}
 	}
 	host := base(0)
 	links := host["links"].([]vt.M)
-	links = append(links, vt.M{"name": "eth0", "idx": 2, "kind": "device", "peer": 0}, vt.M{"name": "eth1", "idx": 3, "kind": "device", "peer": 0},
-		vt.M{"name": "eth2", "idx": 4, "kind": "device", "peer": 0})
+	links = append(links, vt.M{"name": "eth0", "idx": 2, "kind": "device", "peer": 0, "mac": dpMAC(0, 0).String()},
+		vt.M{"name": "eth1", "idx": 3, "kind": "device", "peer": 0, "mac": dpMAC(0, 1).String()},
+		vt.M{"name": "eth2", "idx": 4, "kind": "device", "peer": 0, "mac": dpMAC(0, 2).String()})
 	host["links"] = links
 	dev := func(int) string { return "eth0" }
 	n4, n6 := dpMust("10.88.0.0/24"), dpMust("fd88::/64")
@@ -567,7 +568,7 @@ func (w *dpStubWorld) setupL1(st dpStep) (cfgRec vt.M, links []vt.M, confs []vt.
 		cont := &netlink.Veth{LinkAttrs: netlink.LinkAttrs{Name: cfg.ContainerIfName, Index: ci, MTU: cfg.MTU, HardwareAddr: dpMAC(pod, ci)}}
 		hostVeth := &netlink.Veth{LinkAttrs: netlink.LinkAttrs{Name: cfg.HostVETHName, Index: hi, MTU: cfg.MTU, HardwareAddr: dpMAC(100+pod, hi)}}
 		w.names[pod][ci], w.names[0][hi] = cont.Name, hostVeth.Name
-		links = append(links, dpLinkRec(pod, cont.Name, ci, "veth", hi, ""), dpLinkRec(0, hostVeth.Name, hi, "veth", ci, ""))
+		links = append(links, dpLinkRec(pod, cont, cont.Name, "veth", hi), dpLinkRec(0, hostVeth, hostVeth.Name, "veth", ci))
 		table := utils.GetRouteTableID(eni.Attrs().Index)
 		confs = append(confs,
 			dpConf(pod, cont, generateContCfgForPolicy(cfg, cont, hostVeth.Attrs().HardwareAddr), w.dev(pod)),
@@ -579,7 +580,7 @@ func (w *dpStubWorld) setupL1(st dpStep) (cfgRec vt.M, links []vt.M, confs []vt.
 		ci := w.newIdx(pod)
 		cont := &netlink.IPVlan{LinkAttrs: netlink.LinkAttrs{Name: cfg.ContainerIfName, Index: ci, MTU: cfg.MTU, ParentIndex: eni.Attrs().Index, HardwareAddr: eni.Attrs().HardwareAddr}}
 		w.names[pod][ci] = cont.Name
-		links = append(links, dpLinkRec(pod, cont.Name, ci, "ipvlan", 0, ""))
+		links = append(links, dpLinkRec(pod, cont, cont.Name, "ipvlan", 0))
 		confs = append(confs, dpConf(pod, cont, generateContCfgForIPVlan(cfg, cont), w.dev(pod)))
 		slave, ok := w.slaves[eni.Attrs().Index]
 		if !ok {
@@ -589,7 +590,7 @@ func (w *dpStubWorld) setupL1(st dpStep) (cfgRec vt.M, links []vt.M, confs []vt.
 			w.names[0][si] = slave.Attrs().Name
 		}
 		slaveName = slave.Attrs().Name
-		links = append(links, dpLinkRec(0, slaveName, slave.Attrs().Index, "ipvlan", 0, ""))
+		links = append(links, dpLinkRec(0, slave, slaveName, "ipvlan", 0))
 		confs = append(confs, dpConf(0, slave, generateSlaveLinkCfgForIPVlan(cfg, slave), w.dev(0)))
 	case "exclusive":
 		// ExclusiveENI.Setup: the ENI itself moves into the pod (one dedicated stand-in per attachment), optional veth1/host peer for eth0
@@ -599,7 +600,7 @@ func (w *dpStubWorld) setupL1(st dpStep) (cfgRec vt.M, links []vt.M, confs []vt.
 		ci := w.newIdx(pod)
 		moved := &netlink.Device{LinkAttrs: netlink.LinkAttrs{Name: ded.Name, Index: ci, MTU: 1500, HardwareAddr: ded.HardwareAddr}}
 		w.names[pod][ci] = cfg.ContainerIfName
-		links = append(links, dpLinkRec(pod, cfg.ContainerIfName, ci, "device", 0, ""))
+		links = append(links, dpLinkRec(pod, moved, cfg.ContainerIfName, "device", 0))
 		confs = append(confs, dpConf(pod, moved, generateContCfgForExclusiveENI(cfg, moved), w.dev(pod)))
 		eni = ded
 		if !cfg.DisableCreatePeer && cfg.ContainerIfName == "eth0" {
@@ -607,7 +608,7 @@ func (w *dpStubWorld) setupL1(st dpStep) (cfgRec vt.M, links []vt.M, confs []vt.
 			veth1 := &netlink.Veth{LinkAttrs: netlink.LinkAttrs{Name: defaultVethForENI, Index: vi, MTU: cfg.MTU, HardwareAddr: dpMAC(pod, vi)}}
 			hostPeer := &netlink.Veth{LinkAttrs: netlink.LinkAttrs{Name: cfg.HostVETHName, Index: ph, MTU: cfg.MTU, HardwareAddr: dpMAC(100+pod, ph)}}
 			w.names[pod][vi], w.names[0][ph] = veth1.Name, hostPeer.Name
-			links = append(links, dpLinkRec(pod, veth1.Name, vi, "veth", ph, ""), dpLinkRec(0, hostPeer.Name, ph, "veth", vi, ""))
+			links = append(links, dpLinkRec(pod, veth1, veth1.Name, "veth", ph), dpLinkRec(0, hostPeer, hostPeer.Name, "veth", vi))
 			confs = append(confs, dpConf(pod, veth1, generateVeth1Cfg(cfg, veth1, hostPeer.Attrs().HardwareAddr), w.dev(pod)),
 				dpConf(0, hostPeer, generateHostSlaveCfg(cfg, hostPeer), w.dev(0)))
 		}
@@ -617,7 +618,7 @@ func (w *dpStubWorld) setupL1(st dpStep) (cfgRec vt.M, links []vt.M, confs []vt.
 		ci := w.newIdx(pod)
 		cont := &netlink.Vlan{LinkAttrs: netlink.LinkAttrs{Name: cfg.ContainerIfName, Index: ci, MTU: cfg.MTU, ParentIndex: eni.Attrs().Index, HardwareAddr: eni.Attrs().HardwareAddr}, VlanId: cfg.Vid}
 		w.names[pod][ci] = cont.Name
-		links = append(links, dpLinkRec(pod, cont.Name, ci, "vlan", 0, ""))
+		links = append(links, dpLinkRec(pod, cont, cont.Name, "vlan", 0))
 		confs = append(confs, dpConf(pod, cont, generateContCfgForVlan(cfg, cont), w.dev(pod)))
 	}
 	return dpCfgRec(st, cfg, eni.Attrs().Name, slaveName), links, confs
@@ -751,7 +752,7 @@ func dpDumpNS(nsID int) (vt.M, error) {
 		if _, ok := l.(*netlink.Veth); ok {
 			peer = l.Attrs().ParentIndex
 		}
-		lrec = append(lrec, vt.M{"name": l.Attrs().Name, "idx": l.Attrs().Index, "kind": dpKind(l), "peer": peer})
+		lrec = append(lrec, vt.M{"name": l.Attrs().Name, "idx": l.Attrs().Index, "kind": dpKind(l), "peer": peer, "mac": l.Attrs().HardwareAddr.String()})
 	}
 	dev := func(idx int) string {
 		if n, ok := names[idx]; ok {
